@@ -6,6 +6,7 @@ from ..facts import in_module
 from .. import storemodel as sm, pairing
 from .c32 import _Collect
 from . import c06
+from .. import storerules as sr
 
 LEVEL = "other"
 
@@ -43,6 +44,10 @@ def residual_rule(ctx, F, rule="R01b"):
 def run(ctx, F, cg):
     ctx.rule("R02a", "the store populates property indexes (index_insert), so every mutator that ends a node's membership under (label, property, value) must reach index_remove")
     ctx.rule("R01b", "an index lookup never consumes the predicate it was derived from (the residual filter re-checks it), so an index can only change cost")
+    ctx.rule("R02e", "(tier independence) a read view of the adjacency reads whole (frozen tier, write buffer) pairs of one direction, so compaction cannot change what it returns; single-tier accessors are reviewed and their callers merge both tiers")
+    ctx.rule("R02f", "(index independence) property-index maintenance never removes the old entry after inserting the new one within one pass: when old == new that drops the node from the index while a scan still finds it")
+    sr.direction_coherence(ctx, F, cg, "R02e")
+    sr.remove_before_insert(ctx, F, cg, "R02f", pairs=(("index_insert", "index_remove"),))
     ctx.rule("R06a", "(shared with C06) the compacted tier answers as the write buffer does: deletion covers every representation")
     pairing.matrix(ctx, F, cg, "R02a", "property-index", ["IndexManager::index_insert"], ["IndexManager::index_remove"],
                    ["prop-set", "prop-kill", "label-kill", "node-kill"],
